@@ -3,8 +3,18 @@ import json, os
 from . import common as C, refcodec as R, valgen as V
 
 
-def load_spec():
-    return R.load_layout(json.load(open(os.path.join(C.VERIF, "spec/layout.json"))))
+def load_spec(plus=None):
+    """the frozen specification table; with `plus` (the table translated from the source on this run) also the packet
+    types, reply enums and exchanges the source has ON TOP of the specification — so that additions are exercised too
+    (what the specification names always comes from the frozen table)"""
+    obj = json.load(open(os.path.join(C.VERIF, "spec/layout.json")))
+    if plus is not None:
+        for key in ("structs", "enums", "sequences"):
+            have = {x["name"] for x in obj.get(key, [])}
+            for x in plus.get(key, []):
+                if x["name"] not in have and not (key == "sequences" and x.get("kind") not in ("once", "loop")):
+                    obj[key].append(x)
+    return R.load_layout(obj)
 
 
 def load_schema(schema):
